@@ -91,6 +91,11 @@ const c09Instance = 7
 
 type c09Key string
 
+// the named key type has String and Error methods: a trie that prints its keys through fmt would
+// return the methods' text instead of the stored bytes
+func (k c09Key) String() string { return "KEY<" + strings.ToUpper(string(k)) + ">" }
+func (k c09Key) Error() string  { return "error key " + string(k) }
+
 type c09Val struct {
 	n int
 	s string
